@@ -1873,8 +1873,8 @@ def corr_parafac2_run_g(rng, tier):
     for k in range(nrun):
         I, J, K = rng.randint(2, 3), rng.randint(2, 3), rng.randint(2, 3)
         kind = ("user", "none", "own", "user")[k % 4]
-        R = 1 if (tier == "quick" or kind != "none" or rng.random() < 0.5) else 2
-        n = rng.choice([7, 9]) if kind != "none" else (rng.choice([2, 3]) if R == 1 else 2)
+        R = 1          # rank 1: the least-squares solves of the undeclared modes are divisions by a positive number (no conditioning issue at any intermediate state); rank 2 solves: corr_hals_cp_undeclared
+        n = rng.choice([7, 9]) if kind != "none" else rng.choice([2, 3, 4])
         nn = rng.choice([[0, 2], [0, 2], [2], [0], [1, 2], [0, 1]])
         if kind == "own":          # single-mode and two-mode lists in turn (the object parafac2 builds must carry exactly these)
             nn = ([2], [0, 2], [0], [1, 2])[(k // 4) % 4]
@@ -2031,7 +2031,9 @@ def corr_hals_cp_undeclared(rng, tier):
                 if not np.all(np.isfinite(G)) or np.linalg.cond(G) > 1e5 or abs(np.linalg.det(G)) < 1e-9:
                     return False
             return True
-        if not (hadamard_ok(Fs) and hadamard_ok(r[1])):
+        # every intermediate state of a single sweep (modes updated so far at their final value, the others at their initial value)
+        mixed_ok = n != 1 or all(hadamard_ok([np.asarray(r[1][i]) if i < m else Fs[i] for i in range(order)]) for m in range(1, order))
+        if not (hadamard_ok(Fs) and hadamard_ok(r[1]) and mixed_ok) or (rank > 1 and n != 1):
             continue
         nn_lit = "NNNone" if nn is None else f"(NNList {C.nat_list(nn)})"
         op = (f"(OHalsCpE {C.qtensor(shape, [float(x) for x in X.reshape(-1)])} {qvec_lit(w)} {qmats_lit(Fs)} {optfixed_lit(fixed_raw)} {nn_lit} "
